@@ -90,6 +90,7 @@ class C07(Check):
         "Redshifts include every edge value of every pool configuration exactly, so a wrongly reused tree changes counts. "
         "All histories of <= 2 measurements over a 6-configuration pool are enumerated (thorough; quick: a seeded third); "
         "longer ones are sampled. non-trivial = history of >= 1 operation; distinct = (history, final configuration)"
+        ' Further operations: rejected requests (leafsize=0, binned use of a sample without redshifts), physical scales on a gapped footprint.'
     )
     assumptions = ["catalog creation is deterministic in sequential mode (fresh and history caches hold identical bytes; checked)"]
     floor_nontrivial = 30
